@@ -150,7 +150,7 @@ theorem visitRel_good (P : Proj) (f : File) (c : Cur) (line level : Nat) (module
     Good P c (visitRel P f c line level module names st t s) := by
   unfold visitRel
   split
-  · exact Good.stop h
+  · exact Good.stop (h.diag ..)
   · rename_i base hb
     obtain ⟨hi, hcur⟩ := resolveRel_inv P f c base module level s h hp hst hl hb
     simp only
